@@ -260,6 +260,17 @@ def gen_base(rng, mode, short=False, ml=None):
                                         max_frags=10, max_targets=3)
     base['peer']['dup'] = []
     base['transport'] = 'run'
+    # options that make the report writers read further fields of a match, or
+    # merge matches of the shell's own checks with the proofreader's
+    i = base['argv'].index('--output')
+    extra = []
+    if rng.random() < 0.3:
+        extra.append('--link')
+    if rng.random() < 0.15:
+        extra += ['--single-letters', 'a|z.\\,B.|']
+    if rng.random() < 0.15:
+        extra += ['--equation-punctuation', rng.choice(['displayed', 'all'])]
+    base['argv'][i:i] = extra
     return base
 
 
